@@ -28,6 +28,24 @@ theorem setSub_inv {w : SW} (h : SInv w) (i : Nat) (s : SubSt) : SInv (setSub w 
 theorem setView_inv {w : SW} (h : SInv w) (k : Nat) (v : View) : SInv (setView w k v) :=
   h.congr rfl rfl rfl rfl rfl
 
+theorem enqueue_inv {w : SW} (h : SInv w) (n : Notif Nat) (i : Nat) : SInv (enqueue w n i) := by
+  unfold enqueue
+  split
+  · split
+    · exact h
+    · exact setSub_inv h _ _
+  · exact h
+
+theorem foldl_enqueue_inv (n : Notif Nat) (l : List Nat) : ∀ {w : SW}, SInv w → SInv (l.foldl (fun acc i => enqueue acc n i) w) := by
+  induction l with
+  | nil => intro w h; exact h
+  | cons i rest ih => intro w h; exact ih (enqueue_inv h n i)
+
+theorem foldl_enqueue_inv' (i : Nat) (l : List (Notif Nat)) : ∀ {w : SW}, SInv w → SInv (l.foldl (fun acc n => enqueue acc n i) w) := by
+  induction l with
+  | nil => intro w h; exact h
+  | cons n rest ih => intro w h; exact ih (enqueue_inv h n i)
+
 theorem erase_sub_singleton (l : List Nat) (s : Nat) (hl : l.length ≤ 1) (hs : ∀ x ∈ l, x = s) : l.erase s = [] := by
   match l, hl, hs with
   | [], _, _ => rfl
@@ -43,8 +61,8 @@ theorem step_inv {w : SW} (h : SInv w) (t : Task) : SInv (step w t).1 := by
     | sub i view react =>
       simp only [step]
       split
-      · exact setSub_inv h _ _
-      · exact setView_inv (setSub_inv h _ _) _ _
+      · dsimp only; apply setSub_inv; split <;> exact h.congr rfl rfl rfl rfl rfl
+      · dsimp only; apply setView_inv; apply setSub_inv; split <;> exact h.congr rfl rfl rfl rfl rfl
     | unsub j =>
       simp only [step]
       split
@@ -72,7 +90,9 @@ theorem step_inv {w : SW} (h : SInv w) (t : Task) : SInv (step w t).1 := by
   | emit sid n =>
     simp only [step]
     split
-    · exact h.congr rfl rfl rfl rfl rfl
+    · split
+      · dsimp only; apply foldl_enqueue_inv; exact h.congr rfl rfl rfl rfl rfl
+      · exact h.congr rfl rfl rfl rfl rfl
     · exact h
   | connectP3 sid =>
     simp only [step]
@@ -92,7 +112,31 @@ theorem step_inv {w : SW} (h : SInv w) (t : Task) : SInv (step w t).1 := by
     · exact h
   | storeConn k => exact setView_inv h _ _
   | recordHandle => exact h.congr rfl rfl rfl rfl rfl
-  | subjSub i => exact h.congr rfl rfl rfl rfl rfl
+  | subjSub i =>
+    simp only [step]
+    split
+    · dsimp only; apply foldl_enqueue_inv'; exact h.congr rfl rfl rfl rfl rfl
+    · exact h.congr rfl rfl rfl rfl rfl
+  | ensureActive i =>
+    simp only [step]
+    split
+    · split
+      · exact setSub_inv h _ _
+      · exact h
+    · exact h
+  | schedule i =>
+    simp only [step]
+    split <;> exact h.congr rfl rfl rfl rfl rfl
+  | trampDrain =>
+    simp only [step]
+    split <;> exact h.congr rfl rfl rfl rfl rfl
+  | soRun i =>
+    simp only [step]
+    split
+    · split
+      · exact setSub_inv h _ _
+      · exact setSub_inv h _ _
+    · exact h
   | deliver i n =>
     simp only [step]
     split
@@ -103,6 +147,11 @@ theorem step_inv {w : SW} (h : SInv w) (t : Task) : SInv (step w t).1 := by
         · dsimp only; apply setSub_inv; exact h.congr rfl rfl rfl rfl rfl
         · dsimp only; apply setSub_inv; exact h.congr rfl rfl rfl rfl rfl
   | returned i =>
+    simp only [step]
+    split
+    · exact h
+    · exact setSub_inv h _ _
+  | held i =>
     simp only [step]
     split
     · exact h
